@@ -242,82 +242,31 @@ def _eval_cond(node, svalue: str, svar: str):
 
 
 def kwargs_per_scheme(ctx: Ctx, values: list[str]) -> tuple[Func, dict[str, dict | None]]:
-    """For each scheme value: {kwarg name -> source expression text} that add_schemes passes, or None if undecidable.
-    Works on the loop normal form of add_schemes (comprehensions unrolled, helpers inlined)."""
-    from sa.inline import inlined
+    """For each scheme value: {kwarg name -> text of the value} that add_schemes passes to codegen.scheme, or None if
+    it cannot be decided.  add_schemes is evaluated (abstract values, helpers expanded) for a one-element scheme list
+    holding that member of the Scheme enum - constant propagation through whatever way the keyword arguments are built."""
+    from sa import av
 
     add0 = ctx.sm.func("cli/utils.py", "add_schemes")
-    add = inlined(ctx.sm, add0)
-    loops = [n for n in ast.walk(add.node) if isinstance(n, ast.For)]
-    loop = None
-    for l in loops:
-        if any(isinstance(c, ast.Call) and isinstance(c.func, ast.Attribute) and c.func.attr == "scheme" for c in ast.walk(l)):
-            loop = l
-            break
-    if loop is None:
-        raise AnalysisError("add_schemes: loop (or comprehension) that calls codegen.scheme(...) for each scheme not found")
-    cands = [x.id for x in ast.walk(loop.target) if isinstance(x, ast.Name)]
-    body_txt = " ".join(norm(st) for st in loop.body)
-    svar = next((c for c in cands if f"{c}.value" in body_txt), cands[0] if cands else None)
-    if svar is None:
-        raise AnalysisError("add_schemes: loop variable over the schemes not found")
-    scall = [c for c in ast.walk(loop) if isinstance(c, ast.Call) and isinstance(c.func, ast.Attribute) and c.func.attr == "scheme"][0]
-    star = [k.value for k in scall.keywords if k.arg is None]
-    # the dict(s) that end up in **kwargs (following plain aliases)
-    dict_names: set[str] = set()
-    for sv in star:
-        if isinstance(sv, ast.Name):
-            dict_names.add(sv.id)
-    changed = True
-    while changed:
-        changed = False
-        for n in ast.walk(loop):
-            if isinstance(n, ast.Assign) and len(n.targets) == 1 and isinstance(n.targets[0], ast.Name) and isinstance(n.value, ast.Name):
-                if n.targets[0].id in dict_names and n.value.id not in dict_names:
-                    dict_names.add(n.value.id)
-                    changed = True
+    enum = enum_values(ctx, "schemes.py", "Scheme")
+    by_value = {v: k for k, v in enum.items()}
+    A = av.AV(ctx.sm, inline=lambda callee: callee.rel.endswith("cli/utils.py"))
     out: dict[str, dict | None] = {}
     for v in values:
-        kw: dict | None = {}
-
-        def run(stmts):
-            nonlocal kw
-            for st in stmts:
-                if kw is None:
-                    return
-                if isinstance(st, ast.If):
-                    c = _eval_cond(st.test, v, svar)
-                    if c is None:
-                        if any(isinstance(x, (ast.Subscript, ast.Name)) and norm(x).split("[")[0] in dict_names for n2 in ast.walk(st) if isinstance(n2, ast.Assign) for x in n2.targets):
-                            kw = None
-                            return
-                        continue
-                    run(st.body if c else st.orelse)
-                elif isinstance(st, (ast.Assign, ast.AnnAssign)):
-                    tgts = st.targets if isinstance(st, ast.Assign) else [st.target]
-                    for t in tgts:
-                        if isinstance(t, ast.Subscript) and isinstance(t.value, ast.Name) and t.value.id in dict_names and isinstance(t.slice, ast.Constant):
-                            kw[t.slice.value] = norm(st.value)
-                        elif isinstance(t, ast.Name) and t.id in dict_names and st.value is not None and isinstance(st.value, ast.Dict):
-                            kw.update({const_str(k): norm(val) for k, val in zip(st.value.keys, st.value.values) if k is not None})
-                elif isinstance(st, ast.Expr) and isinstance(st.value, ast.Call):
-                    d = dotted(st.value.func) or ""
-                    if d.split(".")[0] in dict_names and d.endswith(".update"):
-                        for k in st.value.keywords:
-                            kw[k.arg] = norm(k.value)
-                        for a in st.value.args:
-                            if isinstance(a, ast.Dict):
-                                kw.update({const_str(k): norm(val) for k, val in zip(a.keys, a.values) if k is not None})
-
-        run(loop.body)
-        if kw is not None:
-            for k in scall.keywords:
-                if k.arg is not None:
-                    kw[k.arg] = norm(k.value)
-            for sv in star:
-                if isinstance(sv, ast.Dict):
-                    kw.update({const_str(k): norm(val) for k, val in zip(sv.keys, sv.values) if k is not None})
-        out[v] = kw
+        member = ("enum", "Scheme", by_value.get(v, v), v)
+        val, _env = A.returned(add0, {add0.params[1]: ("list", (member,))})
+        calls = [c for c in av.find_all(val, "mcall") if c[2] == "scheme"]
+        if len(calls) != 1:
+            out[v] = None
+            continue
+        kw = {}
+        ok = True
+        for k, x in calls[0][4]:
+            if k == "**" or av.has_unk(x):
+                ok = False
+            else:
+                kw[k] = av.show(x)
+        out[v] = kw if ok else None
     return add0, out
 
 
